@@ -245,6 +245,20 @@ func (t *TSA) RoundTrip(req *http.Request) (*http.Response, error) {
 	if err != nil {
 		panic(err)
 	}
+	// some authorities put the TSTInfo inside a second OCTET STRING; the
+	// token's messageDigest then covers the inner OCTET STRING as a whole
+	double := strings.HasPrefix(out.Kind, "double-wrapped")
+	wrap := func(der []byte) []byte {
+		if !double {
+			return der
+		}
+		b, err := asn1.Marshal(der)
+		if err != nil {
+			panic(err)
+		}
+		return b
+	}
+	infoDER = wrap(infoDER)
 	psd, err := t.mint(id, signer, pkcs9.OidTSTInfo, infoDER, when)
 	if err != nil {
 		panic(err)
@@ -252,7 +266,7 @@ func (t *TSA) RoundTrip(req *http.Request) (*http.Response, error) {
 	if out.Kind == "bad-signature" {
 		psd.Content.SignerInfos[0].EncryptedDigest[5] ^= 0x40
 	}
-	if out.Kind == "forged-content" {
+	if out.Kind == "forged-content" || out.Kind == "double-wrapped-forged" {
 		// the signer block of a genuine token the authority issued earlier for
 		// another imprint, around a TSTInfo that echoes this request
 		oinfo := info
@@ -265,7 +279,7 @@ func (t *TSA) RoundTrip(req *http.Request) (*http.Response, error) {
 		if err != nil {
 			panic(err)
 		}
-		other, err := t.mint(id, signer, pkcs9.OidTSTInfo, oDER, when.Add(-17*time.Hour))
+		other, err := t.mint(id, signer, pkcs9.OidTSTInfo, wrap(oDER), when.Add(-17*time.Hour))
 		if err != nil {
 			panic(err)
 		}
@@ -293,7 +307,7 @@ func (t *TSA) RoundTrip(req *http.Request) (*http.Response, error) {
 		der = append(der, 0x05, 0x00)
 	}
 	entry.SigValue = psd.Content.SignerInfos[0].EncryptedDigest
-	entry.Acceptable = out.Kind == "valid" || out.Kind == "noeku" || out.Kind == "granted-with-mods"
+	entry.Acceptable = out.Kind == "valid" || out.Kind == "noeku" || out.Kind == "granted-with-mods" || out.Kind == "double-wrapped"
 	record()
 	return tsaResp(req, 200, "application/timestamp-reply", der), nil
 }
